@@ -29,7 +29,7 @@
 _Bool nondet_bool(void);
 extern int vs_any_lost;
 
-struct vs_tok { uint8_t kind; int64_t v; };          /* kind 0 = CHAR, 1 = INT */
+struct vs_tok { uint8_t kind; uint8_t fits32; int64_t v; };          /* kind 0 = CHAR, 1 = INT; fits32: INT known to be in int range */
 struct vs_buf { struct vs_tok t[VS_CAP]; int n; int format_error; int overflow; };
 struct vs_state { struct vs_buf *buf; int rpos; int sink; int faulty; int lost; int writes; int flushed; int closed; int is_open; int dirty; };
 struct vs_ctype { uint8_t pad[56]; uint8_t widen_ok; uint8_t widen[256]; uint8_t narrow_ok; };
@@ -38,15 +38,22 @@ struct vs_ios { uint8_t pad0[32]; uint32_t state; uint8_t pad1[196]; struct vs_s
 struct vs_obj { void *vptr; int64_t gcount; struct vs_ios ios; };        /* vbase offset 16 */
 struct vs_obj8 { void *vptr; struct vs_ios ios; };                        /* std::cout/cerr: vbase offset 8 */
 
-static int64_t vs_vtable[8] = {16, 0, 0, 0, 0, 0, 0, 0};     /* slot -3 = vbase offset 16 */
-static int64_t vs_vtable8[8] = {8, 0, 0, 0, 0, 0, 0, 0};
+/* slots are pointers (null + offset): ll2c reads the virtual-base offset as __CPROVER_POINTER_OFFSET(slot), which
+   constant-folds for null+k but not for an integer cast to a pointer */
+static void *vs_vtable[8] = {(char *)0 + 16, 0, 0, 0, 0, 0, 0, 0};     /* slot -3 = vbase offset 16 */
+static void *vs_vtable8[8] = {(char *)0 + 8, 0, 0, 0, 0, 0, 0, 0};
 #define R16(b) b+0,b+1,b+2,b+3,b+4,b+5,b+6,b+7,b+8,b+9,b+10,b+11,b+12,b+13,b+14,b+15
 static struct vs_ctype vs_the_ctype = { {0}, 1, { R16(0), R16(16), R16(32), R16(48), R16(64), R16(80), R16(96), R16(112),
   R16(128), R16(144), R16(160), R16(176), R16(192), R16(208), R16(224), R16(240) }, 0 };
 
 /* static pools: streams are created in a concrete order, so every index below is a constant for the solver */
+/* symbolic execution cost grows with the pool sizes: a harness may shrink them with cbmc_flags -DVS_NOBJ=.. -DVS_NBUF=.. */
+#ifndef VS_NOBJ
 #define VS_NOBJ 16
+#endif
+#ifndef VS_NBUF
 #define VS_NBUF 6
+#endif
 static struct vs_obj vs_objs[VS_NOBJ];
 static struct vs_state vs_states[VS_NOBJ + 3];
 static struct vs_buf vs_bufs[VS_NBUF];
@@ -134,6 +141,9 @@ void vs_init_std_stream(void *obj) {
 /* ---- output ---- */
 static _Bool vs_is_numch(int64_t c) { return (c >= '0' && c <= '9') || c == '-' || c == '+'; }
 
+/* set while an `int`/`short`/`bool` is inserted: its token is in int range by construction, which `>> int` uses to skip
+   the overflow check (a symbolic check would make the fail bit, and with it every later stream position, symbolic) */
+static _Bool vs_hint32;
 static void vs_put_tok(void *o, uint8_t kind, int64_t v) {
   struct vs_ios *ios = vs_ios(o);
   struct vs_state *s = ios->st;
@@ -151,18 +161,19 @@ static void vs_put_tok(void *o, uint8_t kind, int64_t v) {
     if (kind == 0 && p.kind == 1 && vs_is_numch(v)) b->format_error = 1;
   }
   b->t[n].kind = kind;
+  b->t[n].fits32 = vs_hint32 || (kind == 1 && v >= -2147483647 - 1 && v <= 2147483647);
   b->t[n].v = v;
   b->n = n + 1;
 }
 
-void *_ZNSolsEi(void *o, uint32_t v) { vs_put_tok(o, 1, (int32_t)v); return o; }
+void *_ZNSolsEi(void *o, uint32_t v) { vs_hint32 = 1; vs_put_tok(o, 1, (int32_t)v); vs_hint32 = 0; return o; }
 void *_ZNSolsEj(void *o, uint32_t v) { vs_put_tok(o, 1, (int64_t)v); return o; }
-void *_ZNSolsEs(void *o, uint16_t v) { vs_put_tok(o, 1, (int16_t)v); return o; }
+void *_ZNSolsEs(void *o, uint16_t v) { vs_hint32 = 1; vs_put_tok(o, 1, (int16_t)v); vs_hint32 = 0; return o; }
 void *_ZNSo9_M_insertIlEERSoT_(void *o, uint64_t v) { vs_put_tok(o, 1, (int64_t)v); return o; }
 void *_ZNSo9_M_insertImEERSoT_(void *o, uint64_t v) { vs_put_tok(o, 1, (int64_t)v); return o; }
 void *_ZNSo9_M_insertIxEERSoT_(void *o, uint64_t v) { vs_put_tok(o, 1, (int64_t)v); return o; }
 void *_ZNSo9_M_insertIyEERSoT_(void *o, uint64_t v) { vs_put_tok(o, 1, (int64_t)v); return o; }
-void *_ZNSo9_M_insertIbEERSoT_(void *o, _Bool v) { vs_put_tok(o, 1, v); return o; }
+void *_ZNSo9_M_insertIbEERSoT_(void *o, _Bool v) { vs_hint32 = 1; vs_put_tok(o, 1, v); vs_hint32 = 0; return o; }
 void *_ZNSo9_M_insertIPKvEERSoT_(void *o, void *v) { vs_put_tok(o, 1, 0); return o; }
 /* doubles: token kind INT with the bit pattern is not meaningful as text; harnesses that print doubles use sinks */
 void *_ZNSo9_M_insertIdEERSoT_(void *o, double v) { vs_put_tok(o, 1, 0); return o; }
@@ -256,7 +267,11 @@ void *_ZNSi5ungetEv(void *i) {
 }
 void *_ZNSi7putbackEc(void *i, uint8_t c) { return _ZNSi5ungetEv(i); }
 
+/* libstdc++ leaves the target of operator>> UNTOUCHED when the sentry fails (stream not good on entry, or end of input
+   reached while skipping whitespace); a failed parse stores 0, an overflow stores the clamped value */
+static _Bool vs_sentry_ok;
 static void *vs_read_int(void *i, int64_t *out, int64_t lo, int64_t hi) {
+  vs_sentry_ok = 0;
   struct vs_ios *ios = vs_ios(i);
   struct vs_state *s = ios->st;
   struct vs_buf *b = s->buf;
@@ -265,6 +280,7 @@ static void *vs_read_int(void *i, int64_t *out, int64_t lo, int64_t hi) {
   int n = b->n;
   while (pos < n && b->t[pos].kind == 0 && vs_is_space(b->t[pos].v)) pos++;
   if (pos >= n) { *out = 0; s->rpos = pos; ios->state |= VS_EOF | VS_FAIL; return i; }
+  vs_sentry_ok = 1;
   struct vs_tok t = b->t[pos];
   int64_t v = 0;
   if (t.kind == 1) {
@@ -287,16 +303,17 @@ static void *vs_read_int(void *i, int64_t *out, int64_t lo, int64_t hi) {
     if (neg) v = -v;
   }
   s->rpos = pos;
-  if (v < lo) { *out = lo; ios->state |= VS_FAIL; }
+  if (t.kind == 1 && t.fits32 && lo <= -2147483647 - 1 && hi >= 2147483647) *out = v;   /* inserted from an int: in range */
+  else if (v < lo) { *out = lo; ios->state |= VS_FAIL; }
   else if (v > hi) { *out = hi; ios->state |= VS_FAIL; }
   else *out = v;
   if (pos >= n) ios->state |= VS_EOF;
   return i;
 }
-void *_ZNSirsERi(void *i, void *p) { int64_t v = 0; vs_read_int(i, &v, -2147483647 - 1, 2147483647); *(int32_t *)p = (int32_t)v; return i; }
-void *_ZNSirsERj(void *i, void *p) { int64_t v = 0; vs_read_int(i, &v, 0, 4294967295LL); *(uint32_t *)p = (uint32_t)v; return i; }
-void *_ZNSi10_M_extractIlEERSiRT_(void *i, void *p) { int64_t v = 0; vs_read_int(i, &v, INT64_MIN, INT64_MAX); *(int64_t *)p = v; return i; }
-void *_ZNSi10_M_extractImEERSiRT_(void *i, void *p) { int64_t v = 0; vs_read_int(i, &v, 0, INT64_MAX); *(int64_t *)p = v; return i; }
+void *_ZNSirsERi(void *i, void *p) { int64_t v = 0; vs_read_int(i, &v, -2147483647 - 1, 2147483647); if (vs_sentry_ok) *(int32_t *)p = (int32_t)v; return i; }
+void *_ZNSirsERj(void *i, void *p) { int64_t v = 0; vs_read_int(i, &v, 0, 4294967295LL); if (vs_sentry_ok) *(uint32_t *)p = (uint32_t)v; return i; }
+void *_ZNSi10_M_extractIlEERSiRT_(void *i, void *p) { int64_t v = 0; vs_read_int(i, &v, INT64_MIN, INT64_MAX); if (vs_sentry_ok) *(int64_t *)p = v; return i; }
+void *_ZNSi10_M_extractImEERSiRT_(void *i, void *p) { int64_t v = 0; vs_read_int(i, &v, 0, INT64_MAX); if (vs_sentry_ok) *(int64_t *)p = v; return i; }
 
 
 /* ---- compiler-laid-out file and string streams (std::ofstream / std::ifstream / std::ostringstream objects that
@@ -363,7 +380,7 @@ void *_ZNSt13basic_filebufIcSt11char_traitsIcEE5closeEv(void *fb) {
  * record tokens as for every other stream, and str() renders them: CHAR tokens as bytes, INT tokens in decimal
  * (only values in [0, 99999] are inside the model).  The result must fit the small-string buffer (15 bytes).
  * String streams are stack objects: the destructor gives the state and buffer back when they are the newest. */
-static int64_t vs_vtable112[8] = {112, 0, 0, 0, 0, 0, 0, 0};
+static void *vs_vtable112[8] = {(char *)0 + 112, 0, 0, 0, 0, 0, 0, 0};
 void _ZNSt7__cxx1119basic_ostringstreamIcSt11char_traitsIcESaIcEEC1Ev(void *o) {
   struct vs_ios *ios = (struct vs_ios *)((uint8_t *)o + 112);
   *(void **)o = &vs_vtable112[3];
